@@ -41,14 +41,14 @@
 //! `Pending` sources are replaced by the GET-delaying object store plus runtime flavour / partition count.
 //!
 //! Open findings (known_findings.json, cases under /verif/regressions/C31/c31a):
-//!   * `agg-dynamic-filter-null-bound` — GENUINE C31 DEFECT (wrong result): `AggregateStream::
+//!   * `agg-dynamic-filter-null-bound` — FIXED in /repo (case kept as a plain regression) — GENUINE C31 DEFECT (wrong result): `AggregateStream::
 //!     build_dynamic_filter_from_accumulator_bounds` drops the disjunct of every min/max whose bound is still NULL
 //!     instead of disabling the filter, and `scalar_min(Int64(None), x)` keeps the typed NULL forever: `SELECT
 //!     min(v), max(v), min(k1), max(k1) FROM p WHERE k2 = 0` returns min(k1) = 210 with the filter ON, 5 with it
 //!     OFF. Repair /verif/fixes/C31-aggregate-dynamic-filter-null-bound.diff (verified under mutrun: the case and
-//!     the un-excluded quick run pass, probes/log-all-run1.txt). Excluded: AggMinMax over data with NULLs.
+//!     the un-excluded quick run pass, probes/log-all-run1.txt).
 //!   * `parquet-sparse-page-mask` — the C24 finding of the parquet 59.2 push decoder, reached through a static
-//!     predicate + TopK dynamic filter (ON fails with `Invalid offset in sparse column chunk data`, OFF succeeds);
+//!     predicate + TopK / aggregate dynamic filter (ON fails with `Invalid offset in sparse column chunk data`, OFF succeeds);
 //!     no repair here (dependency); the generator sets `max_predicate_cache_size = 0` in 3 of 4 cases and the rest
 //!     (pushdown_filters + predicate cache over Parquet) is excluded.
 //!
@@ -701,13 +701,10 @@ impl Property for C31a {
     /// or more conjuncts (here: a static predicate plus the dynamic filter) can fail with `Invalid offset in
     /// sparse column chunk data`. The generator turns the cache off (`max_predicate_cache_size = 0`) in
     /// three of four cases; the remaining exposure is excluded while that finding is open.
-    /// `agg-dynamic-filter-null-bound`: the aggregate dynamic filter drops the disjunct of a min/max whose
-    /// bound is still NULL (needs NULLs in an aggregated column) — a genuine C31 defect, see known_findings.json.
+    /// (`agg-dynamic-filter-null-bound` is repaired in /repo; its case is a plain regression and AggMinMax over
+    /// data with NULLs is no longer excluded.) The exclusion covers every query kind: the failing two-conjunct row
+    /// filter is a static predicate plus a TopK *or* aggregate (or join) dynamic filter.
     fn known_signature(&self, case: &Case) -> Option<String> {
-        // `VF_MIXED_IGNORE_KNOWN=1` (verification of the candidate repair under mutrun) lifts this exclusion
-        if std::env::var("VF_MIXED_IGNORE_KNOWN").is_err() && matches!(case.kind, Kind::AggMinMax { .. }) && (case.p.null_key_pct > 0 || case.p.null_v_pct > 0) {
-            return Some("agg-dynamic-filter-null-bound".into());
-        }
         let parquet = matches!(case.p_store, Storage::Parquet { .. }) || matches!(case.b_store, Storage::Parquet { .. });
         if case.cfg.pushdown_filters && case.cfg.predicate_cache && parquet { Some("parquet-sparse-page-mask".into()) } else { None }
     }
